@@ -218,6 +218,12 @@ func buildRepoKind(objs []gObj, times []int64, refs []string, bare bool) (*realR
 	if err := os.WriteFile(filepath.Join(gitDir, "packed-refs"), packed.Bytes(), 0o644); err != nil {
 		return nil, err
 	}
+	// every other repository has HEAD detached at its newest commit object, which no reference need reach
+	// (mid-rebase, `checkout --detach`): HEAD is not a reference and is never traversed unless it is given
+	// as a ROOT (seeded change C02m listed objects with `rev-list --all`, which includes HEAD)
+	if cs := indicesOf(objs, 'c'); len(cs) > 0 && (len(objs)+len(refs))%2 == 0 {
+		os.WriteFile(filepath.Join(gitDir, "HEAD"), []byte(rr.oids[cs[len(cs)-1]]+"\n"), 0o644)
+	}
 	return rr, nil
 }
 
@@ -924,7 +930,7 @@ func init() {
 			refs := genE2ERefs(r, objs)
 			args, roots := genSelection(r, objs, refs)
 			style := []string{"full", "full", "hash", "none"}[r.n(4)]
-			layout := []string{"loose", "loose", "packed", "gc", "loose", "packed", "alternates", "promisor"}[r.n(8)]
+			layout := []string{"loose", "loose", "packed", "gc", "loose", "bitmap", "alternates", "promisor"}[r.n(8)]
 			return []string{encRepo(objs), timesJoin(times), joinOrDash(refs, ","), encArgs(args), intsJoin(roots), style, layout}
 		},
 		exec: func(in []string) []string {
@@ -951,6 +957,24 @@ func init() {
 				runCmd(rr.dir, env, nil, "git", "--git-dir", rr.dir, "repack", "-adq")
 			case "gc":
 				runCmd(rr.dir, env, nil, "git", "--git-dir", rr.dir, "-c", "gc.pruneExpire=never", "gc", "-q")
+			case "bitmap":
+				// a pack with a reachability bitmap written when only the first half of the packed references existed;
+				// everything else "arrived since" and is loose (seeded change C03m listed with --use-bitmap-index,
+				// which ignores --date-order: a parent may then precede its child)
+				pr := filepath.Join(rr.dir, "packed-refs")
+				if full, err := os.ReadFile(pr); err == nil {
+					lines := strings.Split(strings.TrimRight(string(full), "\n"), "\n")
+					if len(lines) >= 2 {
+						keep := 1 + len(lines)/2
+						os.WriteFile(pr, []byte(strings.Join(lines[:keep], "\n")+"\n"), 0o644)
+						os.Rename(filepath.Join(rr.dir, "refs"), filepath.Join(rr.dir, "refs.full"))
+						os.MkdirAll(filepath.Join(rr.dir, "refs", "heads"), 0o755)
+						runCmd(rr.dir, env, nil, "git", "--git-dir", rr.dir, "repack", "-adbq")
+						os.RemoveAll(filepath.Join(rr.dir, "refs"))
+						os.Rename(filepath.Join(rr.dir, "refs.full"), filepath.Join(rr.dir, "refs"))
+						os.WriteFile(pr, full, 0o644)
+					}
+				}
 			case "alternates":
 				// every object is borrowed from another object directory (objects/info/alternates)
 				alt := filepath.Join(filepath.Dir(rr.dir), "alt-objects")
